@@ -192,7 +192,7 @@ func runC03(r *core.Run) {
 			}
 		}
 	})
-	byteWalk(r, func(worker int, fam string, b []byte) {
+	byteWalk(r, -1, func(worker int, fam string, b []byte) {
 		in := &Input{Family: fam, Bytes: b, Class: "bytewalk"}
 		for _, p := range adapt.ByFamily(fam) {
 			c03Check(r, worker, p, in, nil)
